@@ -47,7 +47,9 @@ Inductive mcase :=
 | MSW (A B : list Z) (sc : list (Z * Z * Q)) (gap : Q) (out : sw_result)
 | MWE (A B : list Z) (sc : list (Z * Z * Q)) (gap : Q) (out : list triple)
 | MED (A B : list Z) (out : Z) (norm : option Q)
-| MRED (A B rA rB : list Z) (out : Z) (norm : Q).
+| MRED (A B rA rB : list Z) (out : Z) (norm : Q)
+(* IPA-level entry point Pairwise.align: token lists and the returned gapped token rows *)
+| MPW (A B : list Z) (local : bool) (almA almB : list (option Z)).
 
 (* C03 on implementation outputs: brute force over all move lists (short sequences) *)
 Definition small (A B : list Z) (k : nat) : bool := (length A <=? k)%nat && (length B <=? k)%nat.
@@ -85,6 +87,7 @@ Definition mcase_opt_ok (c : mcase) : bool :=
       (out <=? Z.max (Z.of_nat (length A)) (Z.of_nat (length B)))%Z &&
       (if small A B 5 then Z.eqb out (ed_brute A B) else true)
   | MRED _ _ _ _ _ _ => true
+  | MPW _ _ _ _ _ => true
   end.
 
 (* score-only correspondence *)
@@ -99,6 +102,7 @@ Definition mcase_score_ok (c : mcase) : bool :=
   | MED A B out norm => Z.eqb (edit_dist A B) out
   | MRED A B rA rB out norm =>
       match restricted_edit_dist A B rA rB with Some (s, _) => Z.eqb s out | None => false end
+  | MPW _ _ _ _ _ => true
   end.
 
 Definition mcase_code (c : mcase) : nat :=
@@ -122,4 +126,8 @@ Definition mcase_code (c : mcase) : nat :=
       bit 0 (match restricted_edit_dist A B rA rB with
              | Some (s, len) => Z.eqb s out && qclose (inject_Z s / inject_Z (Z.of_nat len)) norm
              | None => false end)
+  | MPW A B local a b =>
+      bit 1 (if local then Nat.eqb (length a) (length b) && no_double_gapb a b &&
+                           sublistb (degap a) A && sublistb (degap b) B
+             else valid_alnb Z.eqb a b A B)
   end.
